@@ -6,19 +6,20 @@
   is reclaimed only when no pending fork protects it, recursion, and filter arguments passed
   as closures `(pc, scope index)` that are looked up through the lexical `outerindex` chain.
 
-  Fragment (`Q`): `.`  constants  `a | b`  `a , b`  `.[]`  `empty`  `[q]`  `error`  `try b`
-  `try b catch h`  and, over a program `def f₀(g): …; def f₁(g): …; main` of one-filter-parameter
+  Fragment (`Q`): `.`  constants  `a | b`  `a , b`  `.[]`  `.name`  `empty`  `[q]`  `error`  `try b`
+  `try b catch h`  `if c then a else b end` (so also `elif`, `and`, `or`)  `l // r`  and, over a program `def f₀(g): …; def f₁(g): …; main` of one-filter-parameter
   functions: the parameter `g` and calls `fᵢ(a)` (any recursion).
 
     * `eval`     — fuel-indexed reference semantics (what Spec.eval says on this fragment; running
                    out of fuel is the absorbing outcome `diverge`)
     * `compile`  — emits, instruction for instruction, what compiler.go emits for these forms with
                    every optimisation switched off (compileQuery / compileComma / compileArray /
-                   compileTry / compileFuncDef / compileFunc / compileCallInternal); `compileProg` lays out the
+                   compileTry / compileIf / compileAlt / compileFuncDef / compileFunc /
+                   compileCallInternal); `compileProg` lays out the
                    whole program as `Compile` does.  Registers `[scope id, i]` are named by the pc
                    of the scope's `opscope` and the pc offset of the allocating instruction; the
                    correspondence stream `mini` compares modulo that renaming.
-    * `step`     — one iteration of the `loop:` of `(*env).Next` (execute.go) for the 17 opcodes
+    * `step`     — one iteration of the `loop:` of `(*env).Next` (execute.go) for the 22 opcodes
                    the fragment needs (+ the native `error`), with the `backtrack` and `err` locals
                    (`err` possibly wrapped in `tryEndError`s: `VErr`), `pushfork` /
                    `popfork` (the `Cfg.fail` state), `callpc` / `index` locals (`CP`), `opscope`'s
@@ -30,6 +31,7 @@
   Abstraction, validated by the `mini` and `stack` streams, not by a theorem: the persistent
   stacks (data stack, scope stack) are immutable lists that a fork copies — justified by
   Props/C01Stack.lean — and scope indices are depths from the bottom of the frame list.
+  `opexpbegin` / `opexpend` (`env.expdepth`, read only in path mode) are no-ops.
   Everything else is literal: `env.values` is one register file that survives backtracking and
   holds values AND closures (the closure a function receives is stored by its prologue into
   register 1 of its frame and read back by `opload` through `env.index`).
